@@ -272,6 +272,23 @@ def context_case(_):
                 out["violations"].append(("context|nested|hash-differs|%s" % lvl, "%s(1) beneath ctop under context %s: key %s, documented %s"
                                           % (lvl, n, got and got[:12], want[:12]), {"context": n}))
                 break
+    # the batch form under context arguments: same identity as the single call
+    setup_store()
+    for n, c in (("{k:1}", {"k": 1}), ("{k:2}", {"k": 2})):
+        audit.bodies_reset()
+        f = fx.f1.with_context_args(c)
+        f.call_batch([{"a": 5}])
+        ran = len(audit.bodies())
+        mm = f.memento(5)
+        got = None if mm is None else mm.invocation_metadata.fn_reference_with_args.arg_hash
+        want = models.ref_arg_hash({"a": 5}, c, fn_info)
+        out["evaluations"] += 1
+        out["transitions"] += 1
+        out["traces"] += 1
+        if ran != 1 or got != want or fx.f1.memento(5) is not None:
+            out["violations"].append(("context|batch|identity", "f1.with_context_args(%s).call_batch([{a:5}]): bodies run %d (expected 1), key under that context %s "
+                                      "(documented %s), memento without context present: %s" % (n, ran, got and got[:12], want[:12], fx.f1.memento(5) is not None), {"context": n}))
+            break
     return out
 
 
